@@ -17,7 +17,8 @@ pub fn evals(prop: &str) -> Vec<(&'static str, &'static str)> {
         match prop {
             "C06" => v.extend([("prop_same_tokens", "prop_same_tokens"), ("prop_sorted_derives", "prop_sorted_derives")]),
             "C09" => v.extend([("prop_frame", "prop_frame"), ("prop_switches", "prop_switches")]),
-            "C17" => v.extend([("prop_same_tokens", "prop_same_tokens"), ("hyp_c17", "hyp_c17"), ("known_F18", "known_F18")]),
+            "C17" => v.extend([("prop_same_tokens", "prop_same_tokens"), ("prop_dedup_groups", "prop_dedup_groups"),
+                              ("hyp_c17", "hyp_c17"), ("hyp_dedup_renames", "hyp_dedup_renames"), ("known_F18", "known_F18"), ("known_F18_groups", "known_F18_groups"), ("known_F3_groups", "known_F3_groups")]),
             _ => {}
         }
         v.push(("hyp_both_ok", "hyp_both_ok"));
@@ -416,6 +417,13 @@ pub fn cases(prop: &str, tier: &str, ctx: &mut Ctx, rng: &mut Rng) {
                 let (rj, _) = reggen::build(&p);
                 regs.push(rj);
             }
+            // same-path families: de-duplication has something to rename (clause "maps de-duplication
+            // renames to the same shape groups")
+            for _ in 0..(60 * scale) {
+                let p = crate::famgen::family_program(rng);
+                let (rj, _) = reggen::build(&p);
+                regs.push(rj);
+            }
             for rj in &regs {
                 let reg = reggen::to_registry(rj);
                 let n = reg.types.len();
@@ -430,7 +438,7 @@ pub fn cases(prop: &str, tier: &str, ctx: &mut Ctx, rng: &mut Rng) {
                     }
                     let r2j = renumber(rj, &perm);
                     let r2 = reggen::to_registry(&r2j);
-                    ctx.push_pair("renumbered", "renumbered", (&reg, &spec), (&r2, &spec));
+                    ctx.push_pair_perm("renumbered", "renumbered", (&reg, &spec), (&r2, &spec), &perm);
                 }
                 // restriction to the types reachable from a chosen set of ids (scale-info's own retain)
                 if n > 0 {
